@@ -277,6 +277,22 @@ func flattenBuf(t *sym.Term) (*sym.Term, []bufItem) {
 		return base, append(items, bufItem{"bytes", t.Args[1]})
 	case "enc":
 		base, items := flattenBuf(t.Args[0])
+		// a constant natural number is the bytes the natural-number writer produces for it (its layout is C08.2's
+		// business): writing the byte 0x00 and writing the natural 0 are the same thing
+		if t.Name == "encodeNatural" {
+			if k, ok := t.Args[1].Int64(); ok && k >= 0 && k < 1<<30 {
+				switch {
+				case k < 1<<7:
+					return base, append(items, bufItem{"byte", u8(k << 1)})
+				case k < 1<<14:
+					v := k<<2 | 1
+					return base, append(items, bufItem{"byte", u8(v & 0xff)}, bufItem{"byte", u8(v >> 8 & 0xff)})
+				default:
+					v := k<<2 | 3
+					return base, append(items, bufItem{"byte", u8(v & 0xff)}, bufItem{"byte", u8(v >> 8 & 0xff)}, bufItem{"byte", u8(v >> 16 & 0xff)}, bufItem{"byte", u8(v >> 24 & 0xff)})
+				}
+			}
+		}
 		return base, append(items, bufItem{"enc:" + t.Name, t.Args[1]})
 	case "conv":
 		// buffer(x) / []byte(x) conversions
